@@ -633,7 +633,7 @@ def partial_cases(tier, seed):
     gen_targets = GEN_TARGETS_Q + ([(4, 2, 2, 4), (2, 4, 3, 2), (3, 3, 3, 3)] if tier == "thorough" else [])
     ks = (0,) if tier == "quick" else (0, 1)
     for n, pos, others in placements:
-        for fam in (("units", "gauss", "gen") if n <= 3 else ("gauss", "gen")):
+        for fam in (("units", "gauss", "gen") if (n <= 2 or (n == 3 and tier == "thorough")) else ("gauss", "gen")):
             for k in (ks if n <= 2 else (0,)):
                 for (o, i) in cp_targets:
                     for r in (1, 3):
@@ -706,7 +706,7 @@ def partial_check(case):
                             site=f"partial_channel:{form}", observed=np.asarray(got), expected=exp)
             last = got
     # full product basis of the multipartite space (every E_rc is a product of matrix units of the factors)
-    limit = 64 if form != "choi" else 36
+    limit = 36
     if R * C <= limit:
         for r_ in range(R):
             for c_ in range(C):
@@ -941,7 +941,7 @@ CLAUSES = [
     Clause("C04.partial", partial_cases, partial_check, tol="alg", weight=0.02, doc="partial_channel = id (x) Phi (x) id at every position, surrounding dims {1,2,3}, all forms, all dim forms",
            alphabets=_alpha(subsystems="1..3 (4 over {1,2} in thorough)", surrounding=[1, 2, 3], column_dims=["same", "reversed", "d%3+1"],
                             cp_targets=CP_TARGETS_Q, pair_targets=GEN_TARGETS_Q, dim_forms=["2row", "2row_nd", "flat", "flat_nd", "none", "default sys"],
-                            rho="two labelled complex operators + every matrix unit of the whole space when rows*cols<=64 (36 for Choi)")),
+                            rho="two labelled complex operators + every matrix unit of the whole space when rows*cols<=36")),
     Clause("C04.natural", natural_cases, natural_check, tol="alg", doc="natural_representation K vec_r(X) = vec_r(Phi(X)); documented rejection of mismatched shapes"),
     Clause("C04.channel_dim", cdim_cases, cdim_check, tol="exact", doc="channel_dim on every Kraus form / Choi matrix, dim forms int/vector/2x2, allow_rect, env dim, rejections"),
     Clause("C04.reference", ref_cases, ref_check, tol="alg", probe=1, doc="reference formulations cross-checked against each other (no toqito call)"),
